@@ -171,19 +171,23 @@ def threePartsNode (q : Quirks) (keepLost : Bool) (p : Ex) (rows : List Row) : L
 def showParts (x : List Row × List Row × List Row) : String :=
   showPosFlat x.1 ++ "/" ++ showPosFlat x.2.1 ++ "/" ++ showPosFlat x.2.2
 
+/-- the departures the code (`Quirks.code`) has, each switched on alone on top of SQL's rules -/
 def quirkNames : List (String × Quirks × Bool) :=
-  [("and-or-not-kleene", ⟨true, false, false, false⟩, false),
-   ("null-compared-as-value", ⟨false, true, false, false⟩, false),
-   ("float-eq-epsilon", ⟨false, false, true, false⟩, false),
-   ("in-two-valued", ⟨false, false, false, true⟩, false),
-   ("nonboolean-predicate-row-in-no-part", ⟨false, false, false, false⟩, true)]
+  let c := Quirks.code
+  (if c.strictBool then [("and-or-not-kleene", (⟨true, false, false, false⟩ : Quirks), false)] else []) ++
+  (if c.nullEq then [("null-compared-as-value", (⟨false, true, false, false⟩ : Quirks), false)] else []) ++
+  (if c.epsEq then [("float-eq-epsilon", (⟨false, false, true, false⟩ : Quirks), false)] else []) ++
+  (if c.inTwoValued then [("in-two-valued", (⟨false, false, false, true⟩ : Quirks), false)] else []) ++
+  [("nonboolean-predicate-row-in-no-part", Quirks.sql, true)]
 
+/-- … and each switched off alone, the others as the code has them -/
 def quirkOffNames : List (String × Quirks × Bool) :=
-  [("and-or-not-kleene", ⟨false, true, true, true⟩, true),
-   ("null-compared-as-value", ⟨true, false, true, true⟩, true),
-   ("float-eq-epsilon", ⟨true, true, false, true⟩, true),
-   ("in-two-valued", ⟨true, true, true, false⟩, true),
-   ("nonboolean-predicate-row-in-no-part", ⟨true, true, true, true⟩, false)]
+  let c := Quirks.code
+  (if c.strictBool then [("and-or-not-kleene", { c with strictBool := false }, true)] else []) ++
+  (if c.nullEq then [("null-compared-as-value", { c with nullEq := false }, true)] else []) ++
+  (if c.epsEq then [("float-eq-epsilon", { c with epsEq := false }, true)] else []) ++
+  (if c.inTwoValued then [("in-two-valued", { c with inTwoValued := false }, true)] else []) ++
+  [("nonboolean-predicate-row-in-no-part", c, false)]
 
 def tlpSigWith (parts : Quirks → Bool → Ex → List Row → List Row × List Row × List Row)
     (p : Ex) (rows : List Row) (model spec : String) : String :=
@@ -264,7 +268,7 @@ def handle (args : List String) : Option Proto.Out :=
     let below := pullChain cap (belowStages pred sk li) cs
     let plain := below.flatten
     let r := s!"I{plain.length},I{(plain.filter (nonNullAt c)).length}"
-    let m := showCounts (simpleAgg c below) ++ "/" ++ showCounts (hashAgg0 c below) ++ "/" ++ r
+    let m := showCounts (simpleAgg c below) ++ "/" ++ showCounts (hashAggCoded c below) ++ "/" ++ r
     pure (mk m (r ++ "/" ++ r ++ "/" ++ r) "hash-aggregate-no-row-on-empty-input")
   | ["qtlp", n, p, t] => do
     let n ← n.toNat?
